@@ -25,6 +25,9 @@ THEOREMS: dict[str, list[str]] = {
         "Rbacx.C05.c05_attr_iff", "Rbacx.C05.c05_attrs_iff", "Rbacx.C05.c05_missing_attr_fails", "Rbacx.C05.c05_engine_flag",
         "Rbacx.C05.c05_path_reference", "Rbacx.C05.c05_path_compiled",
     ],
+    "C06": [
+        "Rbacx.C06.c06_total", "Rbacx.C06.c06_operands_never_raise", "Rbacx.C06.c06_mismatch_skips_rule",
+    ],
     "C07": [
         "Rbacx.C07.c07_ok_iff_all_met", "Rbacx.C07.c07_first_unmet_challenge", "Rbacx.C07.c07_positive_has_no_challenge",
         "Rbacx.C07.c07_guard_gate", "Rbacx.C07.c07_guard_pass", "Rbacx.C07.c07_custom_negative_honoured",
